@@ -29,6 +29,7 @@ DISCARDERS = {
     "core::result::Result::iter": "Result::iter",
     "core::result::Result::into_iter": "Result::into_iter",
     "core::mem::forget": "mem::forget",
+    "core::result::Result::or": "Result::or (the receiver's error is dropped when the alternative is Ok)",
 }
 # of these, the ones whose boolean outcome may legitimately be branched on
 OUTCOME_TESTS = ("core::result::Result::is_ok", "core::result::Result::is_err")
@@ -121,7 +122,7 @@ def consumption(body, ui, local, fields=(), seen=None, depth=0):
             continue
         if kind == "arg":
             callee = obj.get("callee") or "<fnptr>"
-            if callee in DISCARDERS:
+            if callee in DISCARDERS and i == 0:
                 if callee in OUTCOME_TESTS:
                     # outcome observed if the boolean feeds a branch or is returned/stored
                     d = obj["dest"]
@@ -497,13 +498,3 @@ def r4_error_exits_poison(facts, rep):
             )
         results[fn] = all_ok
     return n
-
-
-def positive_controls():
-    """filled by rules/controls.py (synthetic bodies compiled with the same driver that must fire)"""
-    try:
-        import controls
-
-        return controls.run_for("C14")
-    except ImportError:
-        return {"status": "controls module not built yet"}
